@@ -133,6 +133,8 @@ structure Wire where
   dead : Bool := false          -- the connection is closed: a reader error, or HttpStream refused the body
   protoErr : Bool := false      -- ... because the reader raised a protocol error
   sawTrailer : Bool := false
+  errBlocked : Bool := false    -- the delivery in which HttpStream refused the body also made the readers raise: the connection
+                                -- is closed as a protocol error before the error response can be written to it
   outs : List Out := []
   smp : List Nat := []
 
@@ -143,7 +145,8 @@ def Wire.deliverItems (o : Opts) (resp : Bool) (pol : Policy) (f : Bytes → Ret
     let r := run o resp pol f w.st ev.1
     -- handle_protocol_error fires the error hook only if the flow has not errored already (body_size_limit abort)
     { rs := rs', st := r.1, dead := ev.2 || decide (r.1.phase = .errored), protoErr := ev.2 && !decide (r.1.phase = .errored),
-      sawTrailer := items.contains .trailer, outs := w.outs ++ r.2,
+      sawTrailer := items.contains .trailer,
+      errBlocked := w.errBlocked || (ev.2 && decide (r.1.phase = .errored)), outs := w.outs ++ r.2,
       smp := w.smp ++ [r.1.buf.length] }
 
 def Wire.recv (o : Opts) (resp : Bool) (pol : Policy) (f : Bytes → Ret) (w : Wire) (seg : Bytes) : Wire :=
